@@ -1333,6 +1333,8 @@ class Interp:
             if self.models.heap_is_obj(self, v):
                 return v != self.models.heap_none(self)
             raise Unsupported("truth value of term of sort %s" % v.sort())
+        if isinstance(v, self.models.Inf):
+            return True
         if isinstance(v, (str, tuple)):
             return len(v) > 0
         if isinstance(v, frozenset):
